@@ -97,7 +97,8 @@ fn check_history(a: &Ty, b: &Ty, d: &Ty, rep: &mut Report) {
         let kept = ra.clone();
         let c = ra | b.to_real();
         let second = c.to_string();
-        let c2 = c.clone() | d.to_real();
+        let mut c2 = c.clone();
+        c2 |= d.to_real();
         let third = c2.to_string();
         let again = kept.to_string();
         (first, kept, c, second, c2, third, again)
@@ -110,6 +111,7 @@ fn check_history(a: &Ty, b: &Ty, d: &Ty, rep: &mut Report) {
         }
     };
     let _ = first;
+    // (the third value is widened with `|=`, whose result need not be the canonical union; only its text is judged)
     let want_c = Ty::union([a.clone(), b.clone()]);
     let want_c2 = Ty::union([a.clone(), b.clone(), d.clone()]);
     for (what, real_t, text, want) in [("a | b", &c, &second, &want_c), ("a | b | d", &c2, &third, &want_c2), ("a (printed again after its clone was widened)", &kept, &again, a)] {
